@@ -122,6 +122,25 @@ theorem C13_refused_unchanged (v : Ver) (m : TargetsMeta) (op : TOp) (e : Err) :
     repeat' split
     all_goals simp [TargetsMeta.fail, TargetsMeta.done, TargetsMeta.SameContent]
 
+/-- Exactly what a refused edit may leave behind, for ARBITRARY arguments: nothing at all, or the
+(empty) principal map of `AddPrincipal` allocated before its type check — which no query except
+`RemovePrincipal`'s error kind can see.  Sharper than `C13_refused_unchanged`: rules, principals
+AND every other bit of the object are accounted for. -/
+theorem C13_refused_trace_exact (v : Ver) (m : TargetsMeta) (op : TOp) (e : Err) :
+    (m.apply v op).err = some e →
+      (m.apply v op).st = m ∨ (m.apply v op).st = { m with principalsNil := false } := by
+  cases op <;>
+    simp only [TargetsMeta.apply, TargetsMeta.addRule, TargetsMeta.updateRule, TargetsMeta.removeRule,
+      TargetsMeta.reorderRules, TargetsMeta.addPrincipal, TargetsMeta.updatePrincipal, TargetsMeta.removePrincipal] <;>
+    (repeat' split) <;> simp [TargetsMeta.fail, TargetsMeta.done]
+
+/-- The second alternative is real (so `C13_refused_unchanged` cannot be strengthened to equality):
+a refused `AddPrincipal(nil)` on new metadata does change the object. -/
+theorem C13_refused_trace_witness :
+    ∀ v, (TargetsMeta.new.apply v (.addPrincipal none)).err.isSome = true ∧
+      (TargetsMeta.new.apply v (.addPrincipal none)).st ≠ TargetsMeta.new := by
+  intro v; cases v <;> decide
+
 /-- On well-formed metadata no mutator reaches the slice expression of `AddRule` that would panic. -/
 theorem C13_no_panic (v : Ver) (m : TargetsMeta) (op : TOp) (h : MetaStruct m) :
     (m.apply v op).err ≠ some .panic := by
